@@ -264,7 +264,7 @@ func runC12Lifecycle(s *core.Sim, w *SW, first, top uint64, hist *[]string) {
 			wt.got, wt.err = w.St.GetByHeight(rctx, target)
 		})
 	}
-	first = w.M.Tail // (the tail may have been pruned already)
+	first = w.M.Tail       // (the tail may have been pruned already)
 	s.Quiesce(time.Second) // they are subscribed and waiting now
 	event := core.Pick(s.Tape, "lifecycle-event", []string{"wipe", "restart"})
 	*hist = append(*hist, fmt.Sprintf("%d readers wait for %d; then %s; then append %d..%d", nr, target, event, top, target))
